@@ -716,9 +716,9 @@ def _initialize_metric_mahalanobis(input, init='identity', random_state=None,
                     'using the pseudo-inverse instead.')
     if return_inverse:
       M_inv = _pseudo_inverse_from_eig(w, V)
-      return M, M_inv
+      return M.astype(float), M_inv.astype(float)
     else:
-      return M
+      return M.astype(float)
   elif init == 'identity':
     M = np.eye(n_features, n_features)
     if return_inverse:
